@@ -182,15 +182,25 @@ fn mutate_felts(v: &[BigUintAsHex], rng: &mut Rng) -> (Vec<BigUintAsHex>, String
     (out, desc)
 }
 
-fn main() {
-    let args: Vec<String> = std::env::args().collect();
-    if args.len() < 3 {
-        eprintln!("usage: pipeline_tool <jobs.json> <outdir>");
-        std::process::exit(2);
-    }
+static INPUT_STARTED: std::sync::atomic::AtomicU64 = std::sync::atomic::AtomicU64::new(0);
+fn now_s() -> u64 {
+    std::time::SystemTime::now().duration_since(std::time::UNIX_EPOCH).map(|d| d.as_secs()).unwrap_or(0)
+}
+
+fn run_worker(args: &[String]) {
     install_hook();
-    let spec: Value = serde_json::from_str(&std::fs::read_to_string(&args[1]).unwrap()).unwrap();
-    let outdir = args[2].clone();
+    // watchdog: an input that does not finish within the limit is a hang (exit 124, the parent records the in-flight input)
+    std::thread::spawn(|| loop {
+        std::thread::sleep(std::time::Duration::from_secs(2));
+        let t0 = INPUT_STARTED.load(std::sync::atomic::Ordering::Relaxed);
+        let limit: u64 = std::env::var("CVH_INPUT_TIMEOUT_S").ok().and_then(|s| s.parse().ok()).unwrap_or(300);
+        if t0 != 0 && now_s().saturating_sub(t0) > limit {
+            std::process::exit(124);
+        }
+    });
+    let spec: Value = serde_json::from_str(&std::fs::read_to_string(&args[0]).unwrap()).unwrap();
+    let outdir = args[1].clone();
+    let start_at: std::collections::BTreeMap<String, usize> = spec.get("start_at").and_then(|m| m.as_object()).map(|m| m.iter().map(|(k, v)| (k.clone(), v.as_u64().unwrap_or(0) as usize)).collect()).unwrap_or_default();
     std::fs::create_dir_all(&outdir).unwrap();
     let seed = spec.get("seed").and_then(|x| x.as_u64()).unwrap_or(1);
     let threads = spec.get("threads").and_then(|x| x.as_u64()).unwrap_or(14) as usize;
@@ -221,6 +231,16 @@ fn main() {
     let inflight = |what: &Value| {
         let t = rayon::current_thread_index().unwrap_or(0);
         let _ = std::fs::write(format!("{outdir}/inflight.{t}"), what.to_string());
+        INPUT_STARTED.store(now_s(), std::sync::atomic::Ordering::Relaxed);
+    };
+    let job_done = |id: &str| {
+        use std::io::Write;
+        let t = rayon::current_thread_index().unwrap_or(0);
+        let _ = std::fs::remove_file(format!("{outdir}/inflight.{t}"));
+        INPUT_STARTED.store(0, std::sync::atomic::Ordering::Relaxed);
+        if let Ok(mut f) = std::fs::OpenOptions::new().create(true).append(true).open(format!("{outdir}/done.txt")) {
+            let _ = writeln!(f, "{id}");
+        }
     };
     pool.install(|| {
         jobs.par_iter().for_each(|job| {
@@ -260,7 +280,11 @@ fn main() {
                         let Some(mp) = mp else { continue };
                         let mid = format!("{id}#m{k}");
                         k += 1;
-                        inflight(&json!({"id": mid, "plan": desc}));
+                        if k <= start_at.get(&id).copied().unwrap_or(0) {
+                            continue;
+                        }
+                        inflight(&json!({"id": mid, "job": id, "k": k, "kind": "prog", "plan": desc,
+                                         "program_json": serde_json::to_string(&mp).unwrap_or_default()}));
                         let ev = program_stages(&mid, &mp, lp_limit);
                         // Display of an ill-formed program may itself panic (missing labels); it is not a stage of C14.
                         let text = catch_unwind(AssertUnwindSafe(|| mp.to_string())).unwrap_or_default();
@@ -294,7 +318,11 @@ fn main() {
                             desc = format!("{desc}; {d2}");
                         }
                         let mid = format!("{id}#f{k}");
-                        inflight(&json!({"id": mid, "desc": desc}));
+                        if k < start_at.get(&id).copied().unwrap_or(0) {
+                            continue;
+                        }
+                        inflight(&json!({"id": mid, "job": id, "k": k + 1, "kind": "class", "class_path": path, "desc": desc,
+                                         "felts": felts.iter().map(|f| format!("{:#x}", f.value)).collect::<Vec<_>>()}));
                         let mc = ContractClass { sierra_program: felts.clone(), ..class.clone() };
                         emit(
                             class_stages(&mid, &mc),
@@ -328,10 +356,125 @@ fn main() {
                 }
                 k => eprintln!("unknown kind {k}"),
             }
+            job_done(&id);
         })
     });
     stages.into_inner().unwrap().finish();
     inputs.into_inner().unwrap().finish();
     let c = counts.lock().unwrap();
     println!("pipeline_tool: inputs={} with_panic={}", c.0, c.1);
+}
+
+/// Parent: run the jobs in memory-limited single-threaded worker processes; a worker that dies (abort, stack
+/// overflow, allocation failure, time-out) names the input it was working on, which is recorded as a crash, and the
+/// worker is restarted after that input.
+fn main() {
+    let args: Vec<String> = std::env::args().collect();
+    if args.len() >= 4 && args[1] == "worker" {
+        run_worker(&args[2..]);
+        return;
+    }
+    if args.len() < 3 {
+        eprintln!("usage: pipeline_tool <jobs.json> <outdir>");
+        std::process::exit(2);
+    }
+    let spec: Value = serde_json::from_str(&std::fs::read_to_string(&args[1]).unwrap()).unwrap();
+    let outdir = args[2].clone();
+    std::fs::create_dir_all(&outdir).unwrap();
+    let n_workers = spec.get("threads").and_then(|x| x.as_u64()).unwrap_or(14).max(1) as usize;
+    let mem_kb = spec.get("worker_mem_kb").and_then(|x| x.as_u64()).unwrap_or(6_000_000);
+    let per_input_s = spec.get("worker_timeout_s").and_then(|x| x.as_u64()).unwrap_or(1500);
+    let jobs = spec["jobs"].as_array().unwrap().clone();
+    let exe = std::env::current_exe().unwrap();
+    let mut slices: Vec<Vec<Value>> = vec![vec![]; n_workers.min(jobs.len().max(1))];
+    let nsl = slices.len();
+    for (i, j) in jobs.into_iter().enumerate() {
+        slices[i % nsl].push(j);
+    }
+    let crashes = Mutex::new(Vec::<Value>::new());
+    std::thread::scope(|sc| {
+        for (w, slice) in slices.iter().enumerate() {
+            let crashes = &crashes;
+            let spec = &spec;
+            let exe = &exe;
+            let outdir = &outdir;
+            sc.spawn(move || {
+                let mut remaining: Vec<Value> = slice.clone();
+                let mut start_at = serde_json::Map::new();
+                for attempt in 0..60 {
+                    if remaining.is_empty() {
+                        break;
+                    }
+                    let adir = format!("{outdir}/w{w}/a{attempt}");
+                    std::fs::create_dir_all(&adir).unwrap();
+                    let mut sp = spec.clone();
+                    sp["jobs"] = Value::Array(remaining.clone());
+                    sp["threads"] = json!(1);
+                    sp["start_at"] = Value::Object(start_at.clone());
+                    let sp_path = format!("{adir}/jobs.json");
+                    std::fs::write(&sp_path, sp.to_string()).unwrap();
+                    let cmd = format!("ulimit -v {mem_kb}; exec {} worker {} {}", exe.display(), sp_path, adir);
+                    let _ = per_input_s;
+                    let st = std::process::Command::new("bash").arg("-c").arg(&cmd).stdout(std::process::Stdio::null()).status();
+                    let code = st.as_ref().ok().and_then(|s| s.code());
+                    if st.map(|s| s.success()).unwrap_or(false) {
+                        break;
+                    }
+                    let done: std::collections::BTreeSet<String> =
+                        std::fs::read_to_string(format!("{adir}/done.txt")).unwrap_or_default().lines().map(|l| l.to_string()).collect();
+                    let inflight: Option<Value> = std::fs::read_to_string(format!("{adir}/inflight.0")).ok().and_then(|t| serde_json::from_str(&t).ok());
+                    remaining.retain(|j| !done.contains(j["id"].as_str().unwrap_or("")));
+                    match inflight {
+                        Some(inp) => {
+                            let kind = if code == Some(124) { "timeout" } else { "abort" };
+                            crashes.lock().unwrap().push(json!({"kind": kind, "exit": code, "input": inp}));
+                            if let (Some(job), Some(k)) = (inp.get("job").and_then(|j| j.as_str()), inp.get("k").and_then(|k| k.as_u64())) {
+                                start_at.insert(job.to_string(), json!(k));
+                            } else if let Some(id) = inp.get("id").and_then(|i| i.as_str()) {
+                                // the unmutated input itself crashed: give the job up
+                                remaining.retain(|j| j["id"].as_str() != Some(id));
+                            }
+                        }
+                        None => {
+                            // died outside any input (e.g. while loading): drop the first remaining job to make progress
+                            if !remaining.is_empty() {
+                                let j = remaining.remove(0);
+                                crashes.lock().unwrap().push(json!({"kind": "abort_outside_input", "exit": code, "input": {"id": j["id"]}}));
+                            }
+                        }
+                    }
+                }
+            });
+        }
+    });
+    // merge
+    use std::io::Write;
+    let mut n_inputs = 0usize;
+    let mut n_panic = 0usize;
+    for name in ["stages.ndjson", "inputs.ndjson"] {
+        let mut out = std::io::BufWriter::new(std::fs::File::create(format!("{outdir}/{name}")).unwrap());
+        for w in 0..nsl {
+            for attempt in 0..60 {
+                if let Ok(text) = std::fs::read_to_string(format!("{outdir}/w{w}/a{attempt}/{name}")) {
+                    for line in text.lines() {
+                        if serde_json::from_str::<Value>(line).is_ok() {
+                            out.write_all(line.as_bytes()).unwrap();
+                            out.write_all(b"\n").unwrap();
+                            if name == "stages.ndjson" {
+                                if line.contains("\"e\":\"reset\"") { n_inputs += 1 }
+                                if line.contains("\"e\":\"panic\"") { n_panic += 1 }
+                            }
+                        }
+                    }
+                }
+            }
+        }
+        out.flush().unwrap();
+    }
+    let crashes = crashes.into_inner().unwrap();
+    std::fs::write(format!("{outdir}/crashes.json"), serde_json::to_string(&crashes).unwrap()).unwrap();
+    for w in 0..nsl {
+        let _ = std::fs::remove_dir_all(format!("{outdir}/w{w}"));
+    }
+    println!("pipeline_tool: inputs={n_inputs} with_panic={n_panic} crashes={}", crashes.len());
 }
